@@ -29,6 +29,14 @@ def r1(cx):
     cp.check_obligation(cx, rows, "a tombstone that an open snapshot reads (and that is not superseded in its boundary) is kept",
                         lambda t: t["hard_delete"] and not t["latest_del_bottom"] and t["cur_vis"] == "Bounded" and not cp.superseded(t) and (not t["is_latest"] or not t["bottom"]), True,
                         "snapshot-tombstone-dropped", "compaction drops a tombstone that is the version an open snapshot reads: that reader falls through to an older value", w)
+    if info.get("drop_all_consults_oldest_snapshot"):
+        # the drop-all flag is only set when the oldest open snapshot sees the delete; otherwise the bottom-level tombstone
+        # must survive together with the version the older snapshot reads (else that version comes back for everybody)
+        cp.check_obligation(cx, rows, "a latest hard delete at the bottom level is kept while a snapshot older than it is open",
+                            lambda t: t["is_latest"] and t["hard_delete"] and t["bottom"] and not t["latest_del_bottom"], True,
+                            "bottom-tombstone-dropped-under-older-snapshot",
+                            "compaction drops the bottom-level tombstone although a snapshot that began before the delete is open: the version kept for that snapshot is then "
+                            "visible to every later reader (the deleted key comes back)", w)
     cp.check_obligation(cx, rows, "without versioning an older version that no snapshot needs is dropped (space is reclaimed)",
                         lambda t: (not t["versioning"]) and not t["is_latest"] and t["cur_vis"] == "NoActive", False,
                         "old-version-kept", "without versioning, older versions are not dropped although no snapshot exists", w)
